@@ -240,6 +240,24 @@ def run_val(lines, tag, release=False, jobs=16):
     return a, b
 
 
+def run_tls(case_texts, tag, jobs=8):
+    """TLS cases (FORMAT.md section 5): list of (id, text) -> (impl_obs, model_obs)"""
+    d = os.path.join(BUILD, "run_" + tag)
+    os.makedirs(d, exist_ok=True)
+    cf = os.path.join(d, "tls_cases.txt")
+    with open(cf, "w") as f:
+        for _, t in case_texts:
+            f.write(t)
+    impl = os.path.join(d, "tls_impl.obs"); aux = os.path.join(d, "tls_aux.txt"); model = os.path.join(d, "tls_model.obs")
+    rc, out = build.sh([build.harness_bin(), "tls", cf, impl, aux, "--jobs", str(jobs)], timeout=3000)
+    if rc not in (0, 3):
+        raise RuntimeError("harness tls failed rc=%d: %s" % (rc, out[-2000:]))
+    rc, out = build.sh([build.driver_bin(), "tls", cf, aux, model], timeout=3000)
+    if rc != 0:
+        raise RuntimeError("driver tls failed rc=%d: %s" % (rc, out[-2000:]))
+    return split_obs(impl), split_obs(model)
+
+
 def out_bytes(obs):
     """concatenation of all bytes the transport accepted, from observation lines"""
     return b"".join(bytes.fromhex(l[2:]) for l in obs if l.startswith("w|"))
